@@ -56,6 +56,8 @@ class HTTP(BaseComponent):
         self._uri = None
         self._clients = {}
         self._buffers = {}
+        # connections that are being closed: what still arrives is ignored
+        self._closing = set()
 
     @property
     def version(self):
@@ -150,6 +152,8 @@ class HTTP(BaseComponent):
 
         # send HTTP response status line and headers
         res.prepare()
+        if res.close:
+            self._closing.add(sock)
         self.fire(write(sock, b'%s%s' % (bytes(res), bytes(headers))))
 
         if req.method == 'HEAD':
@@ -208,6 +212,7 @@ class HTTP(BaseComponent):
             del self._clients[sock]
         if sock in self._buffers:
             del self._buffers[sock]
+        self._closing.discard(sock)
 
     @handler('read')  # noqa
     def _on_read(self, sock, data):
@@ -218,6 +223,10 @@ class HTTP(BaseComponent):
         Split the buffer by the standard HTTP delimiter CRLF and create
         Raw Event per line. Any unfinished lines of text, leave in the buffer.
         """
+        if sock in self._closing:
+            # answered already, with a response that ends the connection
+            return None
+
         if sock in self._buffers:
             parser = self._buffers[sock]
         else:
@@ -232,6 +241,7 @@ class HTTP(BaseComponent):
                     del self._buffers[sock]
                 if sock in self._clients:
                     del self._clients[sock]
+                self._closing.add(sock)
                 return self.fire(close(sock))
 
         _scheme = 'https' if self._server.secure else 'http'
@@ -253,6 +263,7 @@ class HTTP(BaseComponent):
                 req.server = self._server
                 res = wrappers.Response(req, encoding=self._encoding)
                 del self._buffers[sock]
+                self._closing.add(sock)
                 return self.fire(httperror(req, res, 400))
             return None
 
@@ -287,6 +298,7 @@ class HTTP(BaseComponent):
                 # the major HTTP version differs: answer in our own version,
                 # so that the headers (Connection: close) mean what they say
                 res.protocol = 'HTTP/{:d}.{:d}'.format(*sp)
+                self._closing.add(sock)
                 return self.fire(httperror(req, res, 505))
 
             res.protocol = 'HTTP/{:d}.{:d}'.format(*min(rp, sp))
@@ -295,6 +307,7 @@ class HTTP(BaseComponent):
         clen = int(req.headers.get('Content-Length', '0'))
         if clen < 0:
             del self._buffers[sock]
+            self._closing.add(sock)
             return self.fire(httperror(req, res, 400, description='Invalid Content-Length'))
         if (clen or req.headers.get('Transfer-Encoding') == 'chunked') and not parser.is_message_complete():
             return None
@@ -307,12 +320,14 @@ class HTTP(BaseComponent):
 
         if req.protocol != (1, 0) and not req.headers.get('Host'):
             del self._buffers[sock]
+            self._closing.add(sock)
             return self.fire(httperror(req, res, 400, description='No host header defined'))
 
         # Guard against unwanted request paths (SECURITY).
         path = req.path
         _path = req.uri._path
         if (path.encode(self._encoding) != _path) and (quote(path).encode(self._encoding) != _path):
+            self._closing.add(sock)
             return self.fire(redirect(req, res, [req.uri.utf8()], 301))
 
         req.body = BytesIO(parser.recv_body())
@@ -331,6 +346,7 @@ class HTTP(BaseComponent):
         modified by a :class:`~circuits.web.errors.HTTPError` instance
         or a subclass thereof.
         """
+        self._closing.add(req.sock)
         res.body = str(event)
         self.fire(response(res))
 
@@ -436,6 +452,7 @@ class HTTP(BaseComponent):
 
         code = evalue.code if isinstance(evalue, HTTPException) else None
 
+        self._closing.add(req.sock)
         self.fire(httperror(req, res, code=code, error=(etype, evalue, etraceback)))
 
     @handler('request_failure')
